@@ -187,6 +187,7 @@ type JobSpec struct {
 	Expect    []string          `json:"reach,omitempty"`
 	MayPanic  bool              `json:"may_panic,omitempty"`
 	Labels    []string          `json:"labels,omitempty"`
+	NoReplay  bool              `json:"no_replay,omitempty"`
 }
 
 func (e *Engine) runJob(spec JobSpec, kfOpen map[string]bool) (job *Job) {
@@ -202,7 +203,7 @@ func (e *Engine) runJob(spec JobSpec, kfOpen map[string]bool) (job *Job) {
 	}
 	job.maxSteps = spec.MaxSteps
 	if job.maxSteps == 0 {
-		job.maxSteps = 50_000_000
+		job.maxSteps = 20_000_000
 	}
 	to := spec.TimeoutS
 	if to == 0 {
@@ -358,6 +359,7 @@ func cmdRun(args []string) {
 	smtlog := fs.String("smtlog", "", "log solver input")
 	cpuprof := fs.String("cpuprofile", "", "write cpu profile")
 	qms := fs.Int("qms", 0, "per-query timeout ms")
+	preempt := fs.Int("preempt", -1, "max preemptive context switches (-1 unlimited)")
 	params := paramFlag{}
 	fs.Var(params, "p", "param k=v")
 	fs.Parse(args)
@@ -375,7 +377,7 @@ func cmdRun(args []string) {
 	e.verbose = *verbose
 	fmt.Printf("loaded in %.1fs\n", time.Since(t0).Seconds())
 	smtLogPath = *smtlog
-	job := e.runJob(JobSpec{Pkg: *pkg, Harness: *fn, Params: params, TimeoutS: *timeout, Solver: *solver, QueryMs: *qms}, loadKnown())
+	job := e.runJob(JobSpec{Pkg: *pkg, Harness: *fn, Params: params, TimeoutS: *timeout, Solver: *solver, QueryMs: *qms, Preempt: preempt}, loadKnown())
 	out, _ := json.MarshalIndent(job.report(), "", " ")
 	fmt.Println(string(out))
 	if *verbose > 0 {
